@@ -571,6 +571,9 @@ class Interp(object):
             if isinstance(v, Tok):
                 return self.models.tok_cast(self, v, from_ix, to_ix)
             return self.wrap(self.as_int(v), bits, signed)
+        if kind == "IntToFloat" and isinstance(v, Tok) and v.kind == "I":
+            # lossy for large values: the result is a float token whose comparisons may collide (models._float_cmp)
+            return Tok("F", "float(%s)" % v.name, v.val + v.off, dom="float", extra={"of": v})
         if kind in ("Transmute", "PtrToPtr") or kind.startswith("PointerCoercion") or kind.startswith("PointerExpose"):
             if isinstance(v, BoxV):
                 return Ptr(v.cell, ())
